@@ -302,3 +302,126 @@ SITES = {
     "window-arg": "window rolling:2 (derive {zz = sum %s})",
     "join-cond": "join side:left w (==%s)",
 }
+
+
+# ---------------------------------------------------------------- a module or relation name where a value is required
+# (name text, ident, what it is) -- none of them is a column of any generated frame; `let-table` / `user-module` need the
+# declarations below
+NONVALUE_DECLS = ["let ztab = (from zsrc | select {p, q})", "module zmod {\n  let kk = 1\n}"]
+NONVALUE_ROOT = [("ztab", "NTable"), ("zmod", "NModule")]
+NONVALUE_MODS = [(["zmod", "kk"], "NValue")]
+NONVALUE_NAMES = [
+    ("date", ([], "date"), "std-module"),
+    ("math", ([], "math"), "std-module"),
+    ("text", ([], "text"), "std-module"),
+    ("std", ([], "std"), "std-module"),
+    ("std.math", (["std"], "math"), "std-module"),
+    ("default_db", ([], "default_db"), "root-module"),
+    ("_param", ([], "_param"), "root-module"),
+    ("zmod", ([], "zmod"), "user-module"),
+    ("ztab", ([], "ztab"), "let-table"),
+    ("default_db.zdb", (["default_db"], "zdb"), "database-table"),
+]
+# value sites (the reference stands alone or inside an expression); %s = the name
+VALUE_SITES = {
+    "filter": "filter (%s > 0)",
+    "filter-bare": "filter %s",
+    "derive": "derive {zz = %s}",
+    "derive-expr": "derive {zz = %s + 1}",
+    "select": "select {%s}",
+    "sort": "sort {%s}",
+    "group-key": "group {%s} (take 1)",
+    "aggregate-arg": "aggregate {zz = sum %s}",
+    "window-arg": "window rolling:2 (derive {zz = sum %s})",
+    "join-cond": "join side:left w (%s == 1)",
+    "case": "derive {zz = case [%s == 1 => 2]}",
+    "fn-arg": "derive {zz = (math.round 1 %s)}",
+}
+INTERP_SITES = {
+    "s-string": "derive {zz = s\"{%s} + 1\"}",
+    "s-string-filter": "filter s\"{%s} > 0\"",
+}
+
+
+# ---------------------------------------------------------------- declarations inside modules (resolve_ident, d92afac)
+class ModCase:
+    """one declaration `q` inside module m (depth 1) or m.inner (depth 2) that names `n` in a relation or value position;
+    `n` is declared (as a constant / relation / function / module) in q's own module, in the parent module, at the
+    root, or nowhere"""
+    def __init__(self, depth, kind, where, site, n):
+        self.depth, self.kind, self.where, self.site, self.n = depth, kind, where, site, n
+
+    def decl(self):
+        n = self.n
+        return {"const": "let %s = 4242" % n, "table": "let %s = (from zsrc | select {a, b})" % n,
+                "func": "let %s = v -> v + 1" % n, "module": "module %s {\n  let kk = 1\n}" % n}[self.kind]
+
+    def body(self):
+        n = self.n
+        return {"from": "from %s" % n, "join": "from zt | select {a} | join %s (==a)" % n,
+                "append": "from zt | select {a, b} | append %s" % n,
+                "value": "from zt | select {a} | derive {z = %s}" % n}[self.site]
+
+    def text(self):
+        ind = lambda s, k: "\n".join(" " * k + l for l in s.split("\n"))
+        out = []
+        if self.where == "root":
+            out.append(self.decl())
+        inner = []
+        if self.depth == 2:
+            if self.where == "parent":
+                inner.append(ind(self.decl(), 2))
+            sub = []
+            if self.where == "own":
+                sub.append(ind(self.decl(), 4))
+            sub.append("    let q = (%s)" % self.body())
+            inner.append("  module inner {\n%s\n  }" % "\n".join(sub))
+        else:
+            if self.where == "own":
+                inner.append(ind(self.decl(), 2))
+            inner.append("  let q = (%s)" % self.body())
+        out.append("module m {\n%s\n}" % "\n".join(inner))
+        out.append("from m.%sq" % ("inner." if self.depth == 2 else ""))
+        return "\n".join(out)
+
+    def coq_ms(self):
+        def s(x):
+            return "[" + ";".join(str(ord(c)) for c in x) + "]"
+        nk = {"const": "NValue", "table": "NTable", "func": "NFunc", "module": "NModule"}[self.kind]
+        cur = ["m"] + (["inner"] if self.depth == 2 else [])
+        root = [("std", "NModule"), ("default_db", "NModule"), ("_param", "NModule"), ("m", "NModule")]
+        mods = [(cur + ["q"], "NTable")]
+        if self.depth == 2:
+            mods.append((["m", "inner"], "NModule"))
+        if self.where == "root":
+            root.append((self.n, nk))
+        elif self.where == "own":
+            mods.append((cur + [self.n], nk))
+        elif self.where == "parent":
+            mods.append((["m", self.n], nk))
+        for owner in [m for m, k in mods if k == "NModule" and m[-1] == self.n]:
+            mods.append((owner + ["kk"], "NValue"))
+        frame = "(mkFrame [mkInput %s [%s] false] [])" % (s("zt"), s("a")) if self.site == "value" else "(mkFrame [] [])"
+        r = "[" + "; ".join("(%s, %s)" % (s(a), b) for a, b in root) + "]"
+        m = "[" + "; ".join("([%s], %s)" % ("; ".join(s(x) for x in p), k) for p, k in mods) + "]"
+        c = "[" + "; ".join(s(x) for x in cur) + "]"
+        return "(mkMScope (mkScope %s %s None [] std_names) %s %s)" % (r, frame, c, m)
+
+    def spec_visible(self):
+        """is the declaration visible from q according to reference/spec/modules.md (own module, then the parents, then root)"""
+        return self.where in ("own", "parent", "root")
+
+    def describe(self):
+        return {"depth": self.depth, "kind": self.kind, "where": self.where, "site": self.site, "name": self.n}
+
+
+def module_cases(g, n):
+    out = []
+    for _ in range(n):
+        depth = g.pick([1, 1, 2])
+        kind = g.pick(["const", "const", "table", "func", "module"])
+        where = g.pick(["own", "own", "root", "none"] + (["parent", "parent"] if depth == 2 else []))
+        site = g.pick(["from", "join", "append", "value"])
+        name = g.pick(["k", "r", "zq", "cnt"]) + str(g.r.randrange(1, 9))
+        out.append(ModCase(depth, kind, where, site, name))
+    return out
